@@ -410,7 +410,36 @@ class C16(PropBase):
             out.append(self.g_range_fmt(rng))
         for _ in range(120 if q else 2400):
             out.append(self.g_run(rng))
+        for _ in range(30 if q else 600):
+            out.append(self.g_run_fold(rng))
         return out
+
+    def g_run_fold(self, rng):
+        """transactions inside the repeated hour of a fall-back of the report zone, the later instant showing the earlier
+        wall-clock time: order and running totals are by instant, whatever the displayed civil times look like"""
+        import datetime
+        zone, base = rng.choice([("Europe/Helsinki", datetime.datetime(2024, 10, 27, 0, 0)),       # 04:00 EEST -> 03:00 EET at 01:00Z
+                                 ("America/New_York", datetime.datetime(2024, 11, 3, 5, 0)),       # 02:00 EDT -> 01:00 EST at 06:00Z
+                                 ("Australia/Lord_Howe", datetime.datetime(2024, 4, 6, 14, 30)),   # 02:00 -> 01:30 at 15:00Z
+                                 ("Pacific/Apia", datetime.datetime(2011, 4, 2, 13, 0))])          # 04:00 -> 03:00 at 14:00Z
+        cfg = {}
+        txns = []
+        mins = sorted(rng.sample(range(5, 115), rng.choice([2, 3, 4])))
+        for k, m in enumerate(mins):
+            dt = base + datetime.timedelta(minutes=m)
+            text = dt.strftime("%Y-%m-%dT%H:%M:%S") + "Z"
+            ns = int((dt - datetime.datetime(1970, 1, 1)).total_seconds()) * NS
+            t = common.gen_header(rng, cfg, {"p_uuid": 0.0, "p_loc": 0.0, "p_tags": 0.0, "p_comments": 0.0, "p_code": 0.3, "p_desc": 0.5})
+            t["ts"] = {"ns": str(ns), "off": 0, "text": text}
+            amt = str(k + 1) + rng.choice(["", ".5", ".25"])
+            t["posts"] = [{"acct": rng.choice(["a", "a:b"]), "amount": amt, "unit": None, "comment": None}]
+            t["last"] = {"acct": "e", "comment": None}
+            txns.append(t)
+        rng.shuffle(txns)
+        text = common.render_journal(txns, common.gen_layout(rng))
+        variants = [{"report_tz": z, "ts_style": rng.choice(STYLES), "group_by": rng.choice(GROUP_BYS)} for z in ("UTC", zone)]
+        return {"op": "run", "kind": "report-tz:fold", "cfg": cfg, "txns": txns, "text": text,
+                "want": ["txns", "register", "balance", "balgrp"], "variants": variants}
 
     def mk_ts(self, kind, cfg, texts, same=False):
         return {"op": "ts", "kind": kind, "cfg": cfg, "texts": [t for t in texts if t is not None], "same": same}
